@@ -27,6 +27,7 @@ void am_reset(void);            /* forget events, keep blocks (quarantine stays)
 void am_hard_reset(void);
 void am_release_all(void);      /* unmap every block (only when no block is referenced any more) */
 void am_set_fail_at(long k);    /* fail the k-th monitored request from now (k>=1), -1 never */
+void am_set_fail_from(long k);  /* fail the k-th monitored request and every later one */
 void am_mark(int obj, int op);  /* attribute following events to (object, op index) */
 int am_nevents(void);
 const am_event *am_events(void);
